@@ -180,3 +180,67 @@ func VerifC10_CancellationOutcome() {
 // the task sequences of C04; it is C10's own obligation as well.
 func VerifC10_CanaryRollbackTaskOrder()    { VerifC04_CanaryTaskSequence() }
 func VerifC10_BlueGreenRollbackTaskOrder() { VerifC04_BlueGreenTaskSequence() }
+
+// VerifC10_StatusSyncKeepsTheRecordedRevision: rollback, supersession (a third revision) and completion are all
+// recognised by comparing the workload with the revisions *recorded in the status when the release started*.  The
+// status sync that runs at the top of every reconcile must therefore leave those records alone while the rollout is
+// progressing: whatever the workload looks like now, the recorded canary (updated) revision, the recorded stable
+// revision and the step cursor come out unchanged, and the observed rollout-id / workload generation are refreshed only
+// when the workload still carries the recorded revision.  Otherwise the change is detected once and forgotten on the
+// next reconcile, and a clean-up that needs several reconciles is abandoned half-way.
+func VerifC10_StatusSyncKeepsTheRecordedRevision() {
+	vSimple = true
+	n := verifrt.Concrete(verifrt.IntRange("nSteps", 1, 2))
+	cur := verifrt.Concrete(verifrt.IntRange("st.currentStepIndex", 1, n))
+	blueGreen := verifrt.Bool("blueGreen")
+	var r *v1beta1.Rollout
+	if blueGreen {
+		r = vBlueGreenRollout(n, cur)
+	} else {
+		r = vCanaryRollout(n, cur)
+	}
+	r.Status.Conditions[0].Reason = []string{v1alpha1.ProgressingReasonInRolling, v1alpha1.ProgressingReasonPaused, v1alpha1.ProgressingReasonCancelling, v1alpha1.ProgressingReasonFinalising}[verifrt.IntRange("cond.reason", 0, 3)]
+	r.Status.GetSubStatus().ObservedRolloutID = "id-old"
+	r.Status.GetSubStatus().ObservedWorkloadGeneration = 3
+	w := vWorkload()
+	// the workload now: still the recorded revision, reverted to the stable one, or a third revision
+	switch verifrt.IntRange("wl.now", 0, 2) {
+	case 1:
+		w.CanaryRevision = w.StableRevision
+		w.IsInRollback = verifrt.Bool("wl.inRollback")
+	case 2:
+		w.CanaryRevision = "third-rev"
+	}
+	w.Generation = int64(verifrt.IntRange("wl.generation", 3, 5))
+	if verifrt.Bool("wl.hasRolloutID") {
+		w.Labels = map[string]string{v1beta1.RolloutIDLabel: "id-new"}
+	}
+	verifrt.Stub(stubGetWorkloadForRef, func(f *util.ControllerFinder, rollout *v1beta1.Rollout) (*util.Workload, error) { return w, nil })
+	verifrt.Stub(stubCalculateRolloutHash, func(r *RolloutReconciler, rollout *v1beta1.Rollout) error { return nil })
+	cli := &symclient.Client{}
+	rec := c10Reconciler(cli)
+	before := r.Status.DeepCopy()
+	retry, newStatus, err := rec.calculateRolloutStatus(r)
+	verifrt.Assert(err == nil && !retry && newStatus != nil, "C10.statusSync.completes")
+	if err != nil || newStatus == nil {
+		return
+	}
+	verifrt.Assert(newStatus.Phase == v1beta1.RolloutPhaseProgressing, "C10.statusSync.staysProgressing")
+	verifrt.Assert(!newStatus.IsSubStatusEmpty(), "C10.statusSync.subStatusKept")
+	if newStatus.IsSubStatusEmpty() {
+		return
+	}
+	was, is := before.GetSubStatus(), newStatus.GetSubStatus()
+	verifrt.Assert(newStatus.GetCanaryRevision() == before.GetCanaryRevision(), "C10.statusSync.recordedCanaryRevisionKept")
+	verifrt.Assert(is.StableRevision == was.StableRevision, "C10.statusSync.recordedStableRevisionKept")
+	verifrt.Assert(is.CurrentStepIndex == was.CurrentStepIndex && is.CurrentStepState == was.CurrentStepState && is.NextStepIndex == was.NextStepIndex && is.FinalisingStep == was.FinalisingStep, "C10.statusSync.cursorKept")
+	if w.CanaryRevision == before.GetCanaryRevision() {
+		verifrt.Cover("same-revision")
+		verifrt.Assert(is.ObservedWorkloadGeneration == w.Generation && is.ObservedRolloutID == getRolloutID(w), "C10.statusSync.observedRefreshedForTheRecordedRevision")
+	} else {
+		verifrt.Cover("other-revision")
+		verifrt.Assert(is.ObservedWorkloadGeneration == was.ObservedWorkloadGeneration && is.ObservedRolloutID == was.ObservedRolloutID, "C10.statusSync.observedNotRefreshedForAnotherRevision")
+	}
+	cond := util.GetRolloutCondition(*newStatus, v1beta1.RolloutConditionProgressing)
+	verifrt.Assert(cond != nil && cond.Reason == r.Status.Conditions[0].Reason, "C10.statusSync.reasonKept")
+}
